@@ -55,6 +55,7 @@ func TestWorker(t *testing.T) {
 			w.Flush()
 			continue
 		}
+		betweenEpisodes()
 		fmt.Fprintf(w, "BEGIN %d\n", job.ID)
 		w.Flush()
 		watch <- job.ID
@@ -72,7 +73,6 @@ func TestWorker(t *testing.T) {
 		}
 		res := RunPlan(t, p, job.Trace, emit)
 		watch <- -1
-		betweenEpisodes()
 		if !res.Recycle {
 			emit(res)
 		} else if res.RaceText == "" {
